@@ -348,6 +348,23 @@ def spreadInto (acc : Fields) (src : Fields) : Fields :=
 
 /-! ### The evaluator -/
 
+namespace Res
+/-- sequencing: everything but `ok` (fuel exhaustion, errors, unspecified) propagates -/
+def bind {α β : Type} (r : Res α) (f : α → Res β) : Res β :=
+  match r with
+  | .ok a => f a
+  | .fuelOut => .fuelOut
+  | .err c => .err c
+  | .unspec y => .unspec y
+end Res
+
+/-- the name a tuple term gets: `Name[…]`, `[…]`, or inherited from the first spread's source -/
+def tupleName (name : TupName) (inh : Option (Option String)) : Option String :=
+  match name with
+  | .anon => none
+  | .named s => some s
+  | .inherit => (match inh with | some n => n | none => none)
+
 mutual
 
   /-- Function application. "Functions always have a single parameter"; the parameter is reachable as
@@ -382,21 +399,12 @@ mutual
     | 0, _, _, _ => .fuelOut
     | _ + 1, _, _, .mk [] => .ok Val.nil
     | fuel + 1, env, flow, .mk (.mk cond cons :: rest) =>
-      match evalSeq fuel env flow cond with
-      | .ok (v, env') =>
+      (evalSeq fuel env flow cond).bind fun (v, env') =>
         if v.isNil then evalExpr fuel env flow (.mk rest)
         else
           match cons with
           | none => .ok v
-          | some cs =>
-            match evalSeq fuel env' flow cs with
-            | .ok (w, _) => .ok w
-            | .fuelOut => .fuelOut
-            | .err c => .err c
-            | .unspec y => .unspec y
-      | .fuelOut => .fuelOut
-      | .err c => .err c
-      | .unspec y => .unspec y
+          | some cs => (evalSeq fuel env' flow cs).bind fun (w, _) => .ok w
 
   /-- Sequences (spec §Expressions). "A sequence threads and is fallible: each step starts from the
   previous step's result, and if a step evaluates to nil the rest of the sequence short-circuits and
@@ -405,12 +413,10 @@ mutual
     | 0, _, _, _ => .fuelOut
     | _ + 1, env, flow, [] => .ok (flow, env)
     | fuel + 1, env, flow, c :: cs =>
-      match evalChain fuel env flow c with
-      | .ok (v, env') =>
+      (evalChain fuel env flow c).bind fun (v, env') =>
         match cs with
         | [] => .ok (v, env')
         | _ :: _ => if v.isNil then .ok (Val.nil, env') else evalSeq fuel env' v cs
-      | r => r
 
   /-- Chains (spec §Chains). "The first term starts from the chain's input; each subsequent term
   transforms the flowing value. A chain is an infallible pipe: nil flows through it like any other
@@ -419,20 +425,16 @@ mutual
   def evalChain : Nat → Env → Val → Chain → Res (Val × Env)
     | 0, _, _, _ => .fuelOut
     | fuel + 1, env, flow, .mk pat terms =>
-      match evalTerms fuel env flow terms with
-      | .ok (v, env') =>
+      (evalTerms fuel env flow terms).bind fun (v, env') =>
         match pat with
         | none => .ok (v, env')
         | some p => doMatch env' p v
-      | r => r
 
   def evalTerms : Nat → Env → Val → List Term → Res (Val × Env)
     | 0, _, _, _ => .fuelOut
     | _ + 1, env, flow, [] => .ok (flow, env)
     | fuel + 1, env, flow, t :: ts =>
-      match evalTerm fuel env flow t with
-      | .ok (v, env') => evalTerms fuel env' v ts
-      | r => r
+      (evalTerm fuel env flow t).bind fun (v, env') => evalTerms fuel env' v ts
 
   /-- One term receiving the flowing value (spec §Chains, "When a term receives a value"). -/
   def evalTerm : Nat → Env → Val → Term → Res (Val × Env)
@@ -441,147 +443,46 @@ mutual
     | _ + 1, env, _, .lit l => .ok (litVal l, env)
     -- "The flowing value is also passed into the fields of a tuple that is constructed in the chain"
     | fuel + 1, env, flow, .tuple name fields =>
-      match evalFields fuel env flow fields [] none with
-      | .ok (fs, inh, env') =>
-        let n : Option String :=
-          match name with
-          | .anon => none
-          | .named s => some s
-          | .inherit => (match inh with | some n => n | none => none)
-        .ok (.tup n fs, env')
-      | .fuelOut => .fuelOut
-      | .err c => .err c
-      | .unspec y => .unspec y
+      (evalFields fuel env flow fields [] none).bind fun (fs, inh, env') =>
+        .ok (.tup (tupleName name inh) fs, env')
     -- "`e =x` … is an in-chain match"
     | _ + 1, env, flow, .mtch p => doMatch env p flow
     -- "Blocks create new scopes. Variables assigned within a block shadow outer variables but don't
     --  affect them" — the environment after the block is the one before it.
-    | fuel + 1, env, flow, .block e =>
-      match evalExpr fuel env flow e with
-      | .ok v => .ok (v, env)
-      | .fuelOut => .fuelOut
-      | .err c => .err c
-      | .unspec y => .unspec y
+    | fuel + 1, env, flow, .block e => (evalExpr fuel env flow e).bind fun v => .ok (v, env)
     -- a function literal is a value (closure over the visible bindings); it is not called
     | _ + 1, env, _, .fn nilary body => .ok (.clo nilary body env, env)
     -- "Variables depend on their type: callable variables are called, others replace the value";
     -- `~` is the flowing value itself (never called: "no bare ripple application")
     | fuel + 1, env, flow, .access s accs =>
       match s with
-      | .ripple =>
-        match project flow accs with
-        | .ok v => .ok (v, env)
-        | .fuelOut => .fuelOut
-        | .err c => .err c
-        | .unspec y => .unspec y
-      | .builtin name =>
-        match callFlow fuel (.builtin name) flow with
-        | .ok v => .ok (v, env)
-        | .fuelOut => .fuelOut
-        | .err c => .err c
-        | .unspec y => .unspec y
+      | .ripple => (project flow accs).bind fun v => .ok (v, env)
+      | .builtin name => (callFlow fuel (.builtin name) flow).bind fun v => .ok (v, env)
       | .var x =>
-        match readVar env x with
-        | .ok b =>
-          match project b accs with
-          | .ok v =>
-            if v.isCallable then
-              match callFlow fuel v flow with
-              | .ok w => .ok (w, env)
-              | .fuelOut => .fuelOut
-              | .err c => .err c
-              | .unspec y => .unspec y
-            else .ok (v, env)
-          | .fuelOut => .fuelOut
-          | .err c => .err c
-          | .unspec y => .unspec y
-        | .fuelOut => .fuelOut
-        | .err c => .err c
-        | .unspec y => .unspec y
+        (readVar env x).bind fun b => (project b accs).bind fun v =>
+          if v.isCallable then (callFlow fuel v flow).bind fun w => .ok (w, env) else .ok (v, env)
       | .param =>
-        match readVar env "$" with
-        | .ok b =>
-          match project b accs with
-          | .ok v =>
-            if v.isCallable then
-              match callFlow fuel v flow with
-              | .ok w => .ok (w, env)
-              | .fuelOut => .fuelOut
-              | .err c => .err c
-              | .unspec y => .unspec y
-            else .ok (v, env)
-          | .fuelOut => .fuelOut
-          | .err c => .err c
-          | .unspec y => .unspec y
-        | .fuelOut => .fuelOut
-        | .err c => .err c
-        | .unspec y => .unspec y
+        (readVar env "$").bind fun b => (project b accs).bind fun v =>
+          if v.isCallable then (callFlow fuel v flow).bind fun w => .ok (w, env) else .ok (v, env)
     -- "`&f` references `f` without calling it"
     | _ + 1, env, _, .ref s accs =>
       match s with
       | .ripple => .unspec "cannot reference ripple"
       | .builtin name => .ok (.builtin name, env)
-      | .var x =>
-        match readVar env x with
-        | .ok b =>
-          match project b accs with
-          | .ok v => .ok (v, env)
-          | .fuelOut => .fuelOut
-          | .err c => .err c
-          | .unspec y => .unspec y
-        | .fuelOut => .fuelOut
-        | .err c => .err c
-        | .unspec y => .unspec y
-      | .param =>
-        match readVar env "$" with
-        | .ok b =>
-          match project b accs with
-          | .ok v => .ok (v, env)
-          | .fuelOut => .fuelOut
-          | .err c => .err c
-          | .unspec y => .unspec y
-        | .fuelOut => .fuelOut
-        | .err c => .err c
-        | .unspec y => .unspec y
+      | .var x => (readVar env x).bind fun b => (project b accs).bind fun v => .ok (v, env)
+      | .param => (readVar env "$").bind fun b => (project b accs).bind fun v => .ok (v, env)
     -- "Use `^` for tail-recursive calls. Like any call it is argument-first"; `^f` names another
     -- function. (The driver only accepts tail calls in tail position, where a call's value *is* the
     -- function's value.)
     | fuel + 1, env, flow, .tail none =>
-      match readVar env "^" with
-      | .ok f =>
-        match callFlow fuel f flow with
-        | .ok w => .ok (w, env)
-        | .fuelOut => .fuelOut
-        | .err c => .err c
-        | .unspec y => .unspec y
-      | .fuelOut => .fuelOut
-      | .err c => .err c
-      | .unspec y => .unspec y
+      (readVar env "^").bind fun f => (callFlow fuel f flow).bind fun w => .ok (w, env)
     | fuel + 1, env, flow, .tail (some (x, accs)) =>
-      match readVar env x with
-      | .ok b =>
-        match project b accs with
-        | .ok f =>
-          match callFlow fuel f flow with
-          | .ok w => .ok (w, env)
-          | .fuelOut => .fuelOut
-          | .err c => .err c
-          | .unspec y => .unspec y
-        | .fuelOut => .fuelOut
-        | .err c => .err c
-        | .unspec y => .unspec y
-      | .fuelOut => .fuelOut
-      | .err c => .err c
-      | .unspec y => .unspec y
+      (readVar env x).bind fun b => (project b accs).bind fun f =>
+        (callFlow fuel f flow).bind fun w => .ok (w, env)
     -- "`^~` … hands the flowing value (which must be a nilary function) a nil argument"
     | fuel + 1, env, flow, .tailRipple =>
       match flow with
-      | .clo true _ _ =>
-        match apply fuel flow Val.nil with
-        | .ok w => .ok (w, env)
-        | .fuelOut => .fuelOut
-        | .err c => .err c
-        | .unspec y => .unspec y
+      | .clo true _ _ => (apply fuel flow Val.nil).bind fun w => .ok (w, env)
       | _ => .unspec "ill-typed ^~: not a nilary function"
 
   /-- Tuple fields: "Each field/argument receives its own copy" of the flowing value; bindings made
@@ -591,29 +492,20 @@ mutual
     | 0, _, _, _, _, _ => .fuelOut
     | _ + 1, env, _, [], acc, inh => .ok (acc, inh, env)
     | fuel + 1, env, flow, .val label c :: rest, acc, inh =>
-      match evalChain fuel env flow c with
-      | .ok (v, env') => evalFields fuel env' flow rest (setOrAppend acc label v) inh
-      | .fuelOut => .fuelOut
-      | .err e => .err e
-      | .unspec y => .unspec y
+      (evalChain fuel env flow c).bind fun (v, env') =>
+        evalFields fuel env' flow rest (setOrAppend acc label v) inh
     | fuel + 1, env, flow, .spread src :: rest, acc, inh =>
-      match (match src with
-             | none => Res.ok flow
-             | some x => readVar env x) with
-      | .ok (.tup n fs) =>
-        evalFields fuel env flow rest (spreadInto acc fs) (match inh with | none => some n | some _ => inh)
-      | .ok _ => .unspec "ill-typed spread: not a tuple"
-      | .fuelOut => .fuelOut
-      | .err e => .err e
-      | .unspec y => .unspec y
+      (match src with
+       | none => Res.ok flow
+       | some x => readVar env x).bind fun sv =>
+        match sv with
+        | .tup n fs =>
+          evalFields fuel env flow rest (spreadInto acc fs) (match inh with | none => some n | some _ => inh)
+        | _ => .unspec "ill-typed spread: not a tuple"
 end
 
 /-- A whole program "is a single sequence"; it starts from nil and has no `$`. -/
 def evalProgram (fuel : Nat) (steps : List Chain) : Res Val :=
-  match evalSeq fuel [] Val.nil steps with
-  | .ok (v, _) => .ok v
-  | .fuelOut => .fuelOut
-  | .err c => .err c
-  | .unspec y => .unspec y
+  (evalSeq fuel [] Val.nil steps).bind fun (v, _) => .ok v
 
 end QM.RefSem
